@@ -1,61 +1,15 @@
 /-
-  VK.Props.Kernels — the arithmetic kernels regenerated from /repo's current source
-  (VK.Model.Generated, written by tools/extract_kernels.py on every check) equal the definitions of
-  the hand-written model that the theorems of C02, C03, C07 and C17 are about. A change of one of
-  these expressions in the source makes the corresponding proof fail at `lake build`.
+  VK.Props.KernelsMCMC — the MCMC acceptance probabilities regenerated from /repo's current source equal the
+  ones the model's chains (and their reversibility theorems, C16) use.
 -/
-import VK.Model.Generated
-import VK.Model.STV
+import VK.Model.Generated.MCMC
 import VK.Model.Dist
 import VK.Model.Gen
 import Mathlib.Algebra.Order.Field.Rat
 import Mathlib.Tactic.Linarith
 import Mathlib.Tactic.Ring
-import Mathlib.Tactic.FieldSimp
 
 namespace VK
-
-/-- the source's Droop threshold is the model's -/
-theorem kernel_threshold_droop (m : Nat) (N : Rat) :
-    Generated.thresholdDroop m N = threshold .droop m N := by
-  unfold Generated.thresholdDroop threshold
-  first
-    | rfl
-    | (congr 1; ring)
-
-/-- the source's Hare threshold is the model's -/
-theorem kernel_threshold_hare (m : Nat) (N : Rat) :
-    Generated.thresholdHare m N = threshold .hare m N := by
-  unfold Generated.thresholdHare threshold
-  first
-    | rfl
-    | (congr 1; ring)
-
-/-- the source's transfer value is the factor the model's fractional transfer applies
-(`applyTransfer`, `.fractional`: `b.2 * ((t - q) / t)`) -/
-theorem kernel_transfer_value (t : Rat) (q : Int) (ht : t ≠ 0) : Generated.transferValue t q = (t - q) / t := by
-  unfold Generated.transferValue
-  first
-    | rfl
-    | ring
-    | (field_simp)
-    | (field_simp; ring)
-
-/-- the model's fractional transfer really uses that factor -/
-theorem kernel_transfer_value_used (cfg : STVCfg) (hop : List Cand) (q : Int) (sample : List (List Cand × Nat))
-    (bs : List PBallot) (w : Cand) (hf : cfg.transfer = .fractional) (ht : tally bs hop w ≠ 0) :
-    applyTransfer cfg hop q sample bs w =
-      .ok (bs.map (fun b => if topOf hop b.1 = some w then (b.1, b.2 * Generated.transferValue (tally bs hop w) q) else b)) := by
-  unfold applyTransfer
-  simp only [hf, ht, if_false, kernel_transfer_value _ _ ht]
-
-/-- the source's branch threshold of BoostedRandomDictator is the probability the model's law uses -/
-theorem kernel_boosted_branch (n : Nat) : Generated.boostedBranch n = 1 / ((n : Rat) - 1) := by
-  unfold Generated.boostedBranch
-  first
-    | rfl
-    | ring
-    | (simp; ring)
 
 /-! ### MCMC acceptance probabilities (C16) -/
 
@@ -112,5 +66,6 @@ theorem kernel_bt_accept_used (x : List (Cand × Rat)) (r : List Cand) (j : Nat)
     Gen.btAccept x r j = some (Generated.btAccept (lookupScore x a) (lookupScore x b)) := by
   unfold Gen.btAccept
   simp only [ha, hb, hx, if_false, kernel_bt_accept]
+
 
 end VK
